@@ -1,2 +1,2 @@
-/- C08 — theorems are being added; see harness/props/c08.py THEOREMS for the audited list. -/
-import DsdVerif.Model.Complex
+/- C08 — loop indices, connectivity and exterior loops: theorems are in Props/C08Loop.lean. -/
+import DsdVerif.Props.C08Loop
